@@ -24,11 +24,12 @@ def showState : PState → String
   | .signaled n false => s!"K{n}"
   | .signaled n true => s!"C{n}"
 
-/-- an argument token of a built-in: `''` is the empty string; long options are not modelled -/
+/-- an argument token of a built-in: `''` is the empty string, `\s` a space; long options are not
+    modelled -/
 def parseArg (t : String) : Option Str :=
   if t = "''" then some []
   else if t.startsWith "--" ∧ t.length > 2 then none
-  else some t.toList
+  else some (t.replace "\\s" " ").toList
 
 def parseBool (t : String) : Option Bool :=
   if t = "1" then some true else if t = "0" then some false else none
@@ -135,7 +136,23 @@ def observe (s : JobList) (r : String) (pids : List Nat) : String :=
   let px := pids.map (fun p => s!"{p}:{optNat (lookup s.pids p)}")
   s!"r={r} jobs={showJobs s.entries} len={s.len} cur={optNat s.currentJob} prev={optNat s.previousJob} async={s.lastAsync} find={",".intercalate finds} pidx={",".intercalate px}"
 
-def runLine (line : String) : String :=
+/-- FNV-1a (64 bit) of the UTF-8 bytes -/
+def fnv (s : String) : UInt64 :=
+  s.toUTF8.foldl (fun h b => (h ^^^ b.toUInt64) * 1099511628211) 14695981039346656037
+
+/-- compact observation (case marked `@ `, used by the breadth-first families whose every prefix is
+    a case of its own): hash of the earlier steps, how many of them had a previous job, last step -/
+def compactObs (obs : List String) : String :=
+  match obs.reverse with
+  | [] => ""
+  | last :: revInit =>
+    let init := revInit.reverse
+    let withPrev := (init.filter (fun o => (o.splitOn " prev=- ").length == 1)).length
+    s!"h={(fnv (" | ".intercalate init)).toNat}:{withPrev} | {last}"
+
+def runLine (line0 : String) : String :=
+  let compact := line0.startsWith "@ "
+  let line := if compact then (line0.drop 2).toString else line0
   let parts := (splitTrim line ";").filter (· ≠ "")
   match parts.mapM parseOp with
   | none => "bad-case\t-"
@@ -163,6 +180,6 @@ def runLine (line : String) : String :=
     let spec := match verdict with
       | some v => v
       | none => if pre then "ok" else "ok-until-pre"
-    " | ".intercalate obs ++ "\t" ++ spec
+    (if compact then compactObs obs else " | ".intercalate obs) ++ "\t" ++ spec
 
 def main : IO Unit := mainLoop runLine
